@@ -1802,11 +1802,11 @@ def _eval_loop(ctx, node, ins, at, scope):
                 break
         else:
             sym_exit = True
-        if it >= bound:
-            if S.is_sym(cur_alive):
-                ctx.unwind.append(z3.Not(cur_alive))
-                break
-            raise NotEncodable(f"Loop needs more than {bound} iterations")
+        if it >= bound and S.is_sym(cur_alive):
+            ctx.unwind.append(z3.Not(cur_alive))
+            break
+        if it >= max(bound, 64):
+            raise NotEncodable(f"Loop needs more than {max(bound, 64)} iterations")
         sc = Scope(scope)
         sc.vals[body.input[0].name] = S.from_numpy(np.array(it, dtype=np.int64))
         sc.vals[body.input[1].name] = T(np.bool_, np.array(True if not S.is_sym(cur_alive) else True, dtype=object))
